@@ -52,7 +52,7 @@ def _acquire_slot():
     side by side (development, seed tests) otherwise exhaust the memory and the kernel kills JVMs at random, which
     would surface as spurious machinery errors.  VH_TLC_SLOTS=0 switches the cap off; one check alone never needs
     more than 16.  Waiting for a slot is not counted against the TLC timeout."""
-    n = int(os.environ.get("VH_TLC_SLOTS", "24"))
+    n = int(os.environ.get("VH_TLC_SLOTS", "16"))
     if n <= 0:
         return None
     import fcntl
